@@ -28,6 +28,11 @@ lowering is new (class `Lower`), because this code is not arithmetic but *state 
   * `debug_assert_eq!(a, b, "..")` has no effect in the release build the harness runs: its arguments must still translate, then it is dropped;
     `.clone()`, `&`, `&mut`, `*`, `.as_ref()`, `.as_mut()`, `.into()`, `.into_inner()` (hue newtype) are the identity; `PhantomData` fields are dropped.
 Anything else raises `Untranslatable` (tools/extract_plugins/soa.py turns it into `die`, i.e. `broken[extraction]`).
+
+METHOD SETS (class `MethodSets`): for every impl block a body is translated from (`impl Iterator / DoubleEndedIterator / ExactSizeIterator for Iter<..>`, the 26
+`IntoIterator` impls, `Extend`, `FromIterator`, the four inherent impls, per shape; the five blocks of alpha.rs) the `fn` names written in the block are compared with
+the registered ones: a method that appears and is not translated (a new override of a provided method: `nth`, `nth_back`, `fold`, `last`, ..) raises `Untranslatable`
+naming the impl and the method -- the model derives the provided methods from `next` / `next_back`, so an override is code the tie would otherwise not see.
 """
 import re, os, sys
 sys.path.insert(0, os.path.dirname(os.path.abspath(__file__)))
@@ -583,6 +588,40 @@ def translate(spec, text, registry, eng):
     doc = f"/-- {spec['doc']} -/"
     return doc + "\n" + head + "\n" + "\n".join("  " + l for l in lines) + "\n", rty
 
+# ------------------------------------------------------------------------------------------------ method sets of the translated impl blocks
+def block_fns(src, where):
+    """names of the `fn` items written directly inside the first item whose header matches `where` (the block `find_fn` reads bodies from)"""
+    m = re.search(where, src)
+    if not m: fail(f"item /{where}/ not found")
+    i = src.index("{", m.end() - 1)
+    scope = src[i + 1:R.match_brace(src, i) - 1]
+    out, depth = [], 0
+    for t in re.finditer(r"[{}]|\bfn\s+(\w+)", scope):
+        if t.group(0) == "{": depth += 1
+        elif t.group(0) == "}": depth -= 1
+        elif depth == 0: out.append(t.group(1))
+    return out
+
+class MethodSets:
+    """Every impl block a body is translated from must contain exactly the registered methods: a method that is written in the block and is not
+    registered (a NEW override, e.g. `Iterator::nth`, `fold`, `nth_back`, `last`: it replaces a provided method the model derives from `next` /
+    `next_back`) is neither modelled nor tied, so the run stops and names it."""
+    def __init__(self): self.blocks = {}          # (id(text), where) -> [text, where, item description, {registered fn}]
+    def add(self, text, where, item, fn):
+        b = self.blocks.setdefault((id(text), where), [text, where, item, set()])
+        b[3].add(fn)
+    def check(self):
+        bad = []
+        for text, where, item, fns in self.blocks.values():
+            found = block_fns(text, where)
+            for f in found:
+                if f not in fns: bad.append(f"{item}: the block contains `fn {f}`, which is not a registered / translated method of this block (translated: {sorted(fns)})")
+            for f in sorted(fns):
+                if found.count(f) != 1: bad.append(f"{item}: `fn {f}` occurs {found.count(f)} times in the block, exactly once expected")
+        if bad:
+            raise Untranslatable("method sets of the translated impl blocks: " + " ;; ".join(bad) + " -- a new method (an override of a provided method such as "
+                                 "`Iterator::nth`) must be modelled, registered in tools/rust2lean_soa.py and tied (`tie_<name>`) before the run can pass")
+
 # ------------------------------------------------------------------------------------------------ shapes and registrations
 def partial_vfile(read_src):
     """cam16/partial.rs: the two struct-of-arrays invocations inside `macro_rules! make_partial_cam16`, instantiated at the first actual invocation"""
@@ -774,6 +813,7 @@ def generate(read_src, tie_text):
     eng = rust_macros.Engine(read2, tokenize, [SOA])
     registry, defs, names = {}, [], []
     listing = []
+    msets = MethodSets()
     for (T, prefix, file, hue) in SHAPE_TYPES:
         if T == "PARTIAL": T, prefix, file = pname, pname[0].lower() + pname[1:], VF
         sh = shape_of(eng, file, T, hue)
@@ -786,6 +826,7 @@ def generate(read_src, tie_text):
             which = m1 if text is src_m else m2
             spec["doc"] = f"{file.split('#')[0]}: `{which}!({R.pretty_tokens(inv_m if text is src_m else inv_t)})`" + spec["doc"][len("None"):]
             if spec["self"] == "mut_as_ref": spec["self"] = "ref"
+            msets.add(text, spec["where"], spec["doc"].split(": `fn ")[0] + ", " + spec["doc"].split(" in `", 1)[1].split("`")[0], spec["fn"])
             try:
                 d, rty = translate(spec, text, registry, eng)
             except (Untranslatable, rust_macros.MacroError) as e:
@@ -794,11 +835,13 @@ def generate(read_src, tie_text):
             defs.append(d); names.append(spec["name"])
     asrc = read_src("alpha/alpha.rs")
     for spec in alpha_rs_bodies():
+        msets.add(asrc, spec["where"], "alpha/alpha.rs, " + spec["doc"].split(" in `", 1)[1].split("`")[0], spec["fn"])
         try:
             d, rty = translate(spec, asrc, registry, eng)
         except (Untranslatable, rust_macros.MacroError) as e:
             raise Untranslatable(f"body {spec['name']} (alpha/alpha.rs: fn {spec['fn']}): {e}")
         defs.append(d); names.append(spec["name"])
+    msets.check()
     for n in (names if tie_text is not None else []):
         m = re.search(r"\btheorem\s+tie_" + n + r"\b(.*?):=", tie_text, re.S)
         if not m: raise Untranslatable(f"body {n} is translated but lean/PaletteProofs/{TIE} (and the parts it imports) has no theorem tie_{n}")
